@@ -109,6 +109,12 @@ func VerifC10_DecoratorSync() {
 	matches := rt.Bool("matches-selector")
 	finalized := rt.Bool("finalized")
 	addsLabel := rt.Bool("hook-adds-a-label")
+	// how the webhooks are configured (url, or service reference + path) must not
+	// matter to the finalizer protocol
+	viaService := rt.Bool("hooks-given-as-service-reference")
+	if viaService {
+		rt.Cover("hooks-via-service")
+	}
 
 	target := env.Thing("ns", "p", "puid")
 	if matches {
@@ -145,7 +151,7 @@ func VerifC10_DecoratorSync() {
 	sync := verifDCConstHook(answer)
 	fin := verifDCConstHook(answer)
 	fin.enabled = finEnabled
-	d := verifNewDC(w, verifDCConfig{Rules: verifC10Rule(), FinalizeEnabled: finEnabled, Sync: sync, Finalize: fin,
+	d := verifNewDC(w, verifDCConfig{Rules: verifC10Rule(), FinalizeEnabled: finEnabled, Sync: sync, Finalize: fin, HooksViaService: viaService,
 		Attachments: []verifDCAttachment{{Res: env.ConfigMapRes, Method: "InPlace"}}})
 	cached := d.SnapshotFromStore()
 	fp := verifDCFingerprintOf(cached)
@@ -167,8 +173,8 @@ func VerifC10_DecoratorSync() {
 			continue
 		}
 		if verifC10IsTarget(r) {
-			rt.Assert(r.Verb == "update", "sync/target-verb-not-update")
-			if r.Verb != "update" || r.Sub != "" {
+			rt.Assert(r.IsObjectWrite(), "sync/target-write-neither-update-nor-merge-patch")
+			if !r.IsObjectWrite() || r.Sub != "" {
 				continue
 			}
 			had := verifDCHasFinalizer(r.Pre, verifDCFinalizerName)
